@@ -21,6 +21,12 @@ TriMaxN == IF Thorough THEN 5 ELSE 4
 
 IdxArgs(n) == {[i |-> k, top |-> 0] : k \in 0..(n + 2)} \cup {[i |-> k, top |-> 1] : k \in 1..4}
 
+\* grid construction from every short sequence over three values (C11): the
+\* defect (unordered, duplicated) at every position, too few points
+SeqsUpTo(V, n) == UNION {[1..L -> V] : L \in 0..n}
+GridNewCases == {[op |-> "GridNew", pts |-> s, route |-> r] :
+                   s \in SeqsUpTo({FromInt(0), FromInt(1), FromInt(2)}, IF Thorough THEN 5 ELSE 4), r \in {0, 1, 2}}
+
 CasesFor(a) ==
   LET g == a.g
       n == Len(g)
@@ -39,6 +45,7 @@ CasesFor(a) ==
                 \cup {[op |-> "GridAt", g |-> g, i |-> x.i, top |-> x.top] : x \in IdxArgs(n)}
                 \cup {[op |-> "GridFind", g |-> g, x |-> x] : x \in {g[k] : k \in DOMAIN g} \cup {RSub(g[1], ROne), RAdd(g[n], ROne), Mid(g, 0)}}
            ELSE {})
+     \cup (IF a = SupWhole(EvenGrid(2)) THEN GridNewCases ELSE {})
 
 Init == \E g \in Grids : \E a \in SupportsOn(g) : st = [ph |-> 0, a |-> a]
 Next == /\ st.ph = 0
@@ -94,6 +101,10 @@ ReadOK == st.ph = 0 =>
   /\ SupNInt(S) = Cardinality(SupIvs(S))
   /\ (~SupIsEmpty(S) => SupFront(S) = SupIter(S)[1] /\ SupBack(S) = SupIter(S)[SupSize(S)])
   /\ \A i \in 0..(SupSize(S) - 1) : SupAt(S, i) = SupIter(S)[i + 1]
+
+\* Grid::checkValidity: at least two points, then the strictly-increasing scan
+GridAcceptsI(p) == Len(p) >= 2 /\ \A i \in 2..Len(p) : RLt(p[i - 1], p[i])
+GridNewOK == st.ph = 1 /\ st.c.op = "GridNew" => (GridAcceptsI(st.c.pts) <=> GridValid(st.c.pts))
 
 FindOK == st.ph = 1 /\ st.c.op = "GridFind" => GridFindI(st.c.g, st.c.x) = GridFind(st.c.g, st.c.x)
 =============================================================================
